@@ -715,11 +715,19 @@ func (vm *VM) indexAddr(fr *frame, x *ssa.IndexAddr) Value {
 	idx := vm.idx64(vm.get(fr, x.Index), x.Index.Type())
 	switch bs := base.(type) {
 	case Slice:
+		et := x.X.Type().Underlying().(*types.Slice).Elem()
+		es := sizeof(et)
+		if bs.lazy {
+			if !vm.decide(vm.ts.Ult(idx, bs.symLen)) {
+				vm.goPanicf("index out of range [symbolic] with symbolic length")
+			}
+			i := vm.concreteInt(idx)
+			vm.ensure(bs.obj, bs.off+(i+1)*es)
+			return Ptr{bs.obj, bs.off + i*es}
+		}
 		if bs.symLen != nil {
 			unsupported("element access on a length-only slice")
 		}
-		et := x.X.Type().Underlying().(*types.Slice).Elem()
-		es := sizeof(et)
 		if idx.op != OpConst && scalarOnly(et) && bs.len > 1 {
 			if !vm.decide(vm.ts.Ult(idx, vm.ts.BV(64, uint64(bs.len)))) {
 				vm.goPanicf("index out of range [symbolic] with length %d", bs.len)
@@ -774,6 +782,9 @@ func (vm *VM) sliceOp(fr *frame, x *ssa.Slice) Value {
 	isStr := false
 	switch bs := base.(type) {
 	case Slice:
+		if bs.lazy {
+			return vm.sliceLazy(fr, x, bs)
+		}
 		if bs.symLen != nil {
 			unsupported("slicing a length-only slice")
 		}
@@ -814,12 +825,53 @@ func (vm *VM) sliceOp(fr *frame, x *ssa.Slice) Value {
 	return Slice{obj: obj, off: off + l*es, len: h - l, cap: m - l}
 }
 
+// sliceLazy: s[lo:hi] on a lazily sized buffer.
+func (vm *VM) sliceLazy(fr *frame, x *ssa.Slice, bs Slice) Value {
+	ts := vm.ts
+	es := sizeof(x.X.Type().Underlying().(*types.Slice).Elem())
+	lo := ts.BV(64, 0)
+	if x.Low != nil {
+		lo = vm.idx64(vm.get(fr, x.Low), x.Low.Type())
+	}
+	if x.High == nil && x.Max == nil {
+		if !vm.decide(ts.Ule(lo, bs.symLen)) {
+			vm.goPanicf("slice bounds out of range [symbolic:] with symbolic length")
+		}
+		l := vm.concreteInt(lo)
+		return Slice{obj: bs.obj, off: bs.off + l*es, symLen: ts.Sub(bs.symLen, ts.BV(64, uint64(l))), lazy: true}
+	}
+	hi := bs.symLen
+	if x.High != nil {
+		hi = vm.idx64(vm.get(fr, x.High), x.High.Type())
+	}
+	if !vm.decide(ts.And(ts.Ule(lo, hi), ts.Ule(hi, bs.symLen))) {
+		vm.goPanicf("slice bounds out of range with symbolic length")
+	}
+	l, h := vm.concreteInt(lo), vm.concreteInt(hi)
+	vm.ensure(bs.obj, bs.off+h*es)
+	return Slice{obj: bs.obj, off: bs.off + l*es, len: h - l, cap: h - l}
+}
+
 func (vm *VM) makeSlice(fr *frame, x *ssa.MakeSlice) Value {
 	ts := vm.ts
 	et := x.Type().Underlying().(*types.Slice).Elem()
 	es := sizeof(et)
 	ln := vm.idx64(vm.get(fr, x.Len), x.Len.Type())
 	cp := vm.idx64(vm.get(fr, x.Cap), x.Cap.Type())
+	if ln.op != OpConst && ln == cp && scalarOnly(et) {
+		// a buffer whose length is chosen by the (symbolic) input: sized lazily instead of forking per length
+		lim := ts.BV(64, uint64(1)<<40)
+		if !vm.decide(ts.Ult(ln, lim)) {
+			vm.goPanicf("makeslice: len out of range")
+		}
+		if vm.cfg.CheckAllocSize {
+			vm.obligation(ts.Ule(ln, ts.BV(64, uint64(vm.cfg.MaxAlloc))), "alloc", "allocation-bounded")
+			vm.assume(ts.Ule(ln, ts.BV(64, uint64(vm.cfg.MaxAlloc))))
+		}
+		o := vm.newObj(0, "make(lazy) "+x.Type().String())
+		o.lazyLen = ts.Mul(ln, ts.BV(64, uint64(es)))
+		return Slice{obj: o, symLen: ln, lazy: true}
+	}
 	if ln.op != OpConst || cp.op != OpConst {
 		// negative or absurd lengths panic natively (makeslice: len out of range)
 		lim := ts.BV(64, uint64(1)<<40)
